@@ -167,9 +167,17 @@ func cmdCheck(args []string) (code int) {
 			c2 := NewCtx(p386, *prop, *tier)
 			def.Rules(c2)
 			n := 0
+			// an obligation that fails on both builds is one finding (reported once, under its plain construct, so that
+			// a recorded known finding stays known); only what fails on the 386 build alone is added, marked @386
+			failing := map[string]bool{}
+			for _, o := range c.Obs {
+				if !o.OK {
+					failing[o.Key()] = true
+				}
+			}
 			for _, o := range c2.Obs {
 				n++
-				if !o.OK {
+				if !o.OK && !failing[o.Key()] {
 					o.Construct += "@386"
 					c.Obs = append(c.Obs, o)
 				}
